@@ -1,5 +1,6 @@
 import Pandora.Drv.Util
 import Pandora.Spec.C11
+import Pandora.Gen.InstLoop
 
 namespace Pandora.Drv.C11
 open Pandora.Drv Pandora.Spec.C11
@@ -43,7 +44,10 @@ def handle0 : Handler := fun input impl =>
   -- the real code panicked inside a Shoot of a single-goroutine case (the framework recovered it): a runtime fault
   if impl.startsWith "PANIC" then ("-", s!"fail:fatal:{impl.take 160}") else
   match getS kv "mode" with
-  | "locks" => ("static", judgeStatic tbl Pandora.Gen.Locks.closures Pandora.Gen.Locks.handoverSites Pandora.Gen.Locks.pkgVars Pandora.Gen.Locks.ammoFlows Pandora.Gen.Locks.pooledEscapes Pandora.Gen.Locks.ammoWrites)
+  | "locks" =>
+    ("static", match judgeStatic tbl Pandora.Gen.Locks.closures Pandora.Gen.Locks.handoverSites Pandora.Gen.Locks.pkgVars Pandora.Gen.Locks.ammoFlows Pandora.Gen.Locks.pooledEscapes Pandora.Gen.Locks.ammoWrites with
+      | "ok" => judgeLoop Pandora.Gen.InstLoop.iterBody
+      | v => v)
   | "alias" =>
     let c := cfgOf kv
     let o : AliasObs := { guns := getS okv "guns", ammo := getS okv "ammo", served := getS okv "served",
